@@ -15,6 +15,7 @@ mod c12;
 mod c13;
 mod c17;
 mod c18;
+mod c19;
 mod c20;
 
 fn main() {
@@ -29,6 +30,7 @@ fn main() {
         "C13" => c13::run_case,
         "C17" => c17::run_case,
         "C18" => c18::run_case,
+        "C19" => c19::run_case,
         "C20" => c20::run_case,
         _ => { eprintln!("usage: verif_harness <property id>"); std::process::exit(2) }
     };
